@@ -428,4 +428,14 @@ example : (copyBody exCfg [] [] [exLine] 0 0).zwe = [((1, 4), [ESC, ']', '7', Ch
 example : BufClean (copyBody exCfg [] [] [exLine] 0 0).buf :=
   copyBody_clean exCfg exCfg_ok ((cleanB_iff _).mp (by decide +kernel)) [] [] (by intro pc h; simp at h) _ 0 0
 
+
+-- observed quirk, exhibited by the model and replayed on the real code by the harness
+-- (corpus/C10/hscroll-cuts-marked-escape.json): horizontal scrolling explodes ALL fragments,
+-- including a marked one, and drops leading characters, so only the TAIL of a marked escape
+-- sequence is stored for the raw writer (here `7 BEL` without its `ESC ]`).
+example :
+    (copyBody { exCfg with hscroll := 1, wrap := false } [] []
+      [[(zweMarker, [ESC, ']', '7', Char.ofNat 7]), ([], ['z'])]] 0 0).zwe =
+      [((0, 0), ['7', Char.ofNat 7]), ((0, 0), ['7'])] := by decide +kernel
+
 end Ptk.C10
